@@ -64,7 +64,8 @@ def runIter (fields : List String) : String × String :=
     let cfg := ScanCfg.ofId (nat! sc)
     let f := parseFilter f
     let (items, cur) := iterModel cfg t m f
-    let mo := showItems t items ++ "|" ++ showPos cur
+    -- last field: `iter_with_spans` agrees with `next` + `token_span` (it is that loop in the model)
+    let mo := showItems t items ++ "|" ++ showPos cur ++ "|1"
     let spec := iterSpec cfg t m f
     let so := showItems t spec
     let implItems := (impl.splitOn "|").headD ""
@@ -72,6 +73,7 @@ def runIter (fields : List String) : String × String :=
     let reasons :=
       (if implItems == so then [] else ["C04: delivered stream differs, expected " ++ so]) ++
       (if Spec.tiles Pos.zero raw then [] else ["C04: raw stream does not tile"]) ++
+      (if (impl.splitOn "|").getD 2 "1" == "1" then [] else ["C04: iter_with_spans does not yield the tokens and spans of next + token_span"]) ++
       (if itemsCanon m t spec || implItems != so then [] else ["C03: a delivered position is not canonical"])
     (mo, if reasons.isEmpty then "ok" else "FAIL " ++ "; ".intercalate reasons)
   | _ => ("?", "FAIL bad case line")
@@ -85,7 +87,7 @@ def kindIs (k : Nat) : Tok → Bool := fun t => t.kind == k
 def parseOp (s : String) : Option Op :=
   let h := s.take 1 |>.toString
   let r := s.drop 1 |>.toString
-  if h == "n" then some .next else if h == "p" then some .peek
+  if h == "n" then some .next else if h == "p" then some .peek else if h == "z" then some .emptyQ
   else if h == "i" then some (.nextIf (kindIs (nat! r))) else if h == "e" then some (.nextIf (kindIs (nat! r)))
   else if h == "t" then some (.advanceTo (kindIs (nat! r))) else if h == "u" then some (.advanceUpTo (kindIs (nat! r)))
   else if h == "f" then some (.setFilter (parseFilter r)) else if h == "W" then some (.withFilter (parseFilter r))
@@ -115,9 +117,15 @@ def fingerprint (lx : Lx) : String :=
     "/".intercalate marks ++ "~" ++ (if lx.filter.isSome then "F1" else "F0") ++
     (if lx.recover.isSome then "R1" else "R0")
 
+def showLE : LineEnding → String
+  | .lf => "lf" | .cr => "cr" | .crlf => "crlf"
+
 def stateObs (lx : Lx) : String :=
   "/".intercalate [showSpan lx.tokenSpan, showSpan lx.parseSpan, showPos lx.cursorPos,
-    showOptSpan lx.peekTokenSpan, fingerprint lx]
+    showOptSpan lx.peekTokenSpan, fingerprint lx,
+    -- the remaining read-only accessors: peek_parse_span, peek_cursor_pos, is_empty, line_ending, tab_width
+    ";".intercalate [showOptSpan lx.peekParseSpan, showOptPos lx.peekCursorPos, showBool lx.isEmpty,
+      showLE lx.metrics.le, toString lx.metrics.tab]]
 
 def showOut : LexOps.Out Tok → String
   | .tok t => showOptTok t
